@@ -133,15 +133,28 @@ impl TimeZone {
         match rule {
             TransitionRule::Fixed(local_time_type) => local_time_type.clone(),
             TransitionRule::Alternate(altt) => {
-                // At the very ends of the supported range the switch-over days of the year can be
-                // out of range. Standard time applies there.
-                let (std_end_timestamp, dst_end_timestamp) = match (
+                // In the first and the last year of the supported range some switch-over days are
+                // not representable. The Gregorian calendar repeats every 400 years (146 097 days,
+                // a whole number of weeks), so the rule is evaluated one period closer to year 1
+                // there.
+                const PERIOD: i64 = 146_097 * 86_400;
+                let ends = |timestamp: i64| match (
                     altt.local_std_end_timestamp(timestamp),
                     altt.local_dst_end_timestamp(timestamp),
                 ) {
-                    (Some(std_end), Some(dst_end)) => (std_end, dst_end),
-                    _ => return altt.std.clone(),
+                    (Some(std_end), Some(dst_end)) => Some((timestamp, std_end, dst_end)),
+                    _ => None,
                 };
+                let shifted = if timestamp < 0 {
+                    timestamp.saturating_add(PERIOD)
+                } else {
+                    timestamp.saturating_sub(PERIOD)
+                };
+                let (timestamp, std_end_timestamp, dst_end_timestamp) =
+                    match ends(timestamp).or_else(|| ends(shifted)) {
+                        Some(found) => found,
+                        None => return altt.std.clone(),
+                    };
 
                 let std_end_unix = std_end_timestamp - altt.std.utoff as i64;
                 let dst_end_unix = dst_end_timestamp - altt.dst.utoff as i64;
